@@ -1113,6 +1113,7 @@ static jv *run_conc(jv *st)
   jv *tms = j_mkarr();
   for (int t = 0; t < co_n; t++) j_push(tms, siglist(co[t].mask, 64));
   j_put(x, "tmasks", tms);
+  j_put(x, "penv", obs_key("penv", st, 0, NULL));
   return x;
 }
 
@@ -1128,6 +1129,7 @@ static jv *conc_obs(void)
     j_put(e, "h", j_mkint(h));
     j_put(e, "cw", obs_key("cw", call, 1, NULL));
     j_put(e, "cx", obs_key("cx", call, 1, NULL));
+    j_put(e, "cenv", obs_key("cenv", call, 1, NULL));
     /* number of open file descriptions that can write into this child's stdin pipe besides the parent's own end */
     struct sk_proc *c = &K->proc[p];
     int other = -1;
